@@ -14,7 +14,7 @@ import vf
 
 PROP = "C10"
 THEOREMS = ["read_prefix", "frame_codec_roundtrip", "commit_codec_roundtrip", "recover_committed_log", "recover_prefix",
-            "ack_durable_partial", "repair_rewrite_kill_refuted"]
+            "ack_durable_partial", "recover_idempotent", "repair_rewrite_kill_refuted"]
 
 PRE = ("From Coq Require Import List NArith.\nFrom Echo Require Import Base.Bytes Model.Wal.\n"
        "Import ListNotations.\nOpen Scope N_scope.\n")
@@ -401,17 +401,28 @@ def rewrite_model(rw):
     pairs = [(s, tbl) for s in segs]
     terms = []
     for i, (c, m) in enumerate(rw):
-        lst = ";".join(m["stops"].split(","))
-        terms.append(f"map (fun k => summarize (recover_store (tbl_hash tbl{2*i+1}) (firstn (N.to_nat k) seg{2*i+1}))) [{lst}]")
+        # what the interrupted repair left on disk: a prefix of the file it was writing (the segment is unlinked
+        # first - the code as it is now), or the old segment (an atomic replace)
+        stops = [int(x) for x in m["stops"].split(",")]
+        ondisk = m["ondisk"].split(",")
+        parts = []
+        for c0, od in zip(stops, ondisk):
+            if od == "prefix":
+                parts.append(f"summarize (recover_store (tbl_hash tbl{2*i+1}) (firstn (N.to_nat {c0}) seg{2*i+1}))")
+            elif od == "old":
+                parts.append(f"summarize (recover_store (tbl_hash tbl{2*i}) seg{2*i})")
+            else:
+                parts.append("(1, 0, 0, [])")
+        terms.append("[" + ";".join(parts) + "]")
         terms.append(f"bytes_eqb (repair (tbl_hash tbl{2*i}) seg{2*i}) seg{2*i+1}")
     vals = model_on_variants("c10rw-e", pairs, terms)
     for i, (c, m) in enumerate(rw):
         kills = m["kills"].split(";")
-        mod = [render_summary(s)[0] for s in vals[2 * i]]
+        mod = [render_summary(tuple(s))[0] for s in vals[2 * i]]
         checked += len(kills)
         if mod != kills:
             differing += 1
-            msgs.append(f"kill states during rewrite differ on `{c}`: impl={kills} model={mod}")
+            msgs.append(f"states after an interrupted repair differ on `{c}`: impl={kills} model={mod}")
         checked += 1
         if vals[2 * i + 1] != "true":
             differing += 1
